@@ -455,6 +455,8 @@ pub fn parse_multiline_text(
                 ),
             });
         }
+        // n*mx: every line consists of SWIFT x characters
+        parse_swift_chars(line, &format!("Line {}", i + 1))?;
     }
 
     Ok(lines)
